@@ -262,6 +262,11 @@ class ParametricTransform:
             raise TypeError(
                 f"{type(self).__name__}.link() 'other' must be of the same type, got {type(other).__name__}"
             )
+        if "params" in self._parameters:
+            # A module cannot be assigned to a registered parameter. Because a shallow copy shares the
+            # parameters container with the original transformation, remove it from a separate container.
+            self._parameters = self._parameters.copy()
+            del self._parameters["params"]
         self.params = other
         if not hasattr(self, "p"):
             if other.params is None:
